@@ -255,6 +255,8 @@ struct Snap {
 	std::vector<Color4> cols;
 	std::vector<float> eye;
 	std::vector<Triangle> tris;
+	bool trisOk = false;	// what GetTriangles returned
+	uint32_t ntris = 0;		// GetNumTriangles
 	BoundingSphere bounds;
 	std::string flavour_mismatch; // pointer getter vs copying getter disagree
 };
@@ -275,7 +277,8 @@ static Snap snapshot(NifFile& nif, NiShape* shape) {
 	if (auto p = nif.GetBitangentsForShape(shape)) { s.pB = !p->empty(); s.bits = *p; }
 	if (auto p = nif.GetColorsForShape(shape)) { s.pC = !p->empty(); s.cols = *p; }
 	if (auto p = nif.GetEyeDataForShape(shape)) { s.pE = !p->empty(); s.eye = *p; }
-	shape->GetTriangles(s.tris);
+	s.trisOk = shape->GetTriangles(s.tris);
+	s.ntris = shape->GetNumTriangles();
 	s.bounds = shape->GetBounds();
 	// the copying flavour of each getter must agree with the pointer flavour whenever it reports data
 	{
@@ -308,6 +311,9 @@ static void check_sizes(Ctx& x, const Snap& s, const std::string& when) {
 	if (!s.bits.empty() && s.bits.size() != s.nv) bad("bitangents", s.bits.size());
 	if (!s.cols.empty() && s.cols.size() != s.nv) bad("colours", s.cols.size());
 	if (!s.eye.empty() && s.eye.size() != s.nv) bad("eyedata", s.eye.size());
+	// the triangle getter hands out triangles it then reports as "no triangles", or the counter disagrees with the list
+	if (!s.tris.empty() && !s.trisOk) viol(x, "triangle-getter-reports-failure:" + when, vf::strf("GetTriangles returns false but hands out %zu triangles (%s)", s.tris.size(), when.c_str()));
+	if (s.ntris != s.tris.size()) viol(x, "triangle-counter:" + when, vf::strf("GetNumTriangles says %u, GetTriangles hands out %zu (%s)", s.ntris, s.tris.size(), when.c_str()));
 	if (!s.flavour_mismatch.empty())
 		viol(x, "getter-flavours-differ:" + when, "pointer and copying getter disagree for: " + s.flavour_mismatch + "(" + when + ")");
 }
@@ -701,6 +707,8 @@ static std::vector<Case> unit_cases(const Unit& U, bool thorough) {
 						c.fam = "setter"; c.ver = U.ver; c.V = U.V; c.arr = arr; c.trimask = (1u << npool) - 1; c.uv = uv; c.nrm = nr; c.base = base;
 						c.setter = SETTERS[U.setter];
 						out.push_back(c);
+						// the same setter on a shape that was created without any triangle (three arrangements)
+						if (arr % 3 == 0 && npool > 0) { c.trimask = 0; out.push_back(c); }
 					}
 	}
 	else {
